@@ -9,6 +9,8 @@ Mutant files: mutants/<prop>/<name>.json = {"file": ..., "find": ..., "replace":
 """
 import json, os, shutil, subprocess, sys, tempfile, concurrent.futures, time
 
+import threading
+RUST_LOCK = threading.Lock()   # Rust mutants share one cargo target dir: one at a time
 HERE = os.path.dirname(os.path.dirname(os.path.abspath(__file__)))
 REPO = os.environ.get("VERIF_REPO", "/repo")
 
@@ -36,7 +38,10 @@ def run_one(path):
                 return name, prop, "STALE", "fragment not found in %s" % e["file"]
             s = s.replace(e["find"], e["replace"], e.get("count", 1))
             open(p, "w").write(s)
-        env = dict(os.environ, VERIF_REPO=scratch, VERIF_OUT=scratch + "/.out", VERIF_MUTANT="1")
+        env = dict(os.environ, VERIF_REPO=scratch, VERIF_OUT=scratch + "/.out", VERIF_MUTANT="1", VERIF_CACHE=scratch + "/.cache",
+                   VERIF_RS_TARGET=os.environ.get("VERIF_MUT_RS_TARGET", "/tmp/ts-verif-mut-rs-target"))
+        if rust:
+            RUST_LOCK.acquire()
         t = time.time()
         r = subprocess.run([os.path.join(HERE, "check"), prop, "quick"], env=env, stdout=subprocess.PIPE, stderr=subprocess.STDOUT, text=True)
         out = r.stdout
@@ -54,6 +59,11 @@ def run_one(path):
             return name, prop, "ERROR", out[-600:]
         return name, prop, "SURVIVED", "exit=%d keys=%s" % (r.returncode, keys[:5])
     finally:
+        if RUST_LOCK.locked() and 'rust' in dir() and rust:
+            try:
+                RUST_LOCK.release()
+            except RuntimeError:
+                pass
         shutil.rmtree(scratch, ignore_errors=True)
 
 
@@ -81,6 +91,7 @@ def main():
             res.append(r)
             print("%-8s %s/%s  %s" % (r[2], r[1], r[0], r[3]))
     bad = [r for r in res if r[2] not in ("KILLED",)]
+    shutil.rmtree(os.environ.get("VERIF_MUT_RS_TARGET", "/tmp/ts-verif-mut-rs-target"), ignore_errors=True)
     print("mutants: %d total, %d killed, %d not killed" % (len(res), len(res) - len(bad), len(bad)))
     out = os.environ.get("VERIF_MUTANT_SUMMARY")
     if out:
